@@ -7,6 +7,7 @@ import (
 	"os/exec"
 	"strconv"
 
+	"verif/engines/cli"
 	"verif/engines/events"
 	"verif/engines/history"
 	"verif/engines/stream"
@@ -23,6 +24,7 @@ func plainEngines() map[string]simkit.Engine {
 	add("stream-json", stream.JSON)
 	add("stream-html", stream.HTML)
 	add("history", history.Run)
+	add("sched-cli", cli.Sched)
 	return m
 }
 
@@ -101,6 +103,18 @@ func checkCmd(args []string) int {
 		c.Components = map[string][]string{"real": realLib, "simulated": {"the caller (order, repetition and aliasing of public API calls)", "user callbacks (errors, panics, re-entrancy, handing out held slices)"}}
 		c.RequiredProbes = []string{"held-slice-with-spare-capacity", "held-slice-in-reverse-order", "variable-is-held-slice-with-spare-capacity", "callback-reentered-Exec", "callback-reentered-same-compiled-expression", "compiled-expression-reused", "bindings-via-caller-owned-maps", "callback-error", "callback-panic", "repeated-operation", "rebuild-determinism-check", "callback-returned-caller-held-slice"}
 		c.Phases = []simkit.Phase{{Label: "history", Bin: bin, Engine: "history", Runs: pick(10000, 400000), MaxSeconds: secs(70, 1500), DetSample: int(pick(16, 128)), Samples: 3}}
+	case "C14":
+		c.Level = "exploration"
+		raceEnv := []string{"GORACE=halt_on_error=0 exitcode=0 log_path=" + env("VERIF_RACE_LOG", "/tmp/verif-race")}
+		c.Rule = "one evaluation = one simulated run: (library) 2-4 tasks x 1-5 operations (Exec with options or shared caller-owned maps, Unmarshal, GetCursorString, BuildExpr) on one shared cursor tree, one pool of compiled expressions and one set of bindings incl. shared node-set variables with spare capacity / reverse order, under a tape-drawn schedule of scheduler L (geometric gaps, PCT, site-targeted switches), once in the plain build and - same seeds - in the -race build; (CLI) one `-c N` process under a tape-drawn schedule of scheduler P; distinct = distinct hash of (scenario, context-switch sequence); non-trivial = at least two tasks actually interleaved (one ran a step strictly between another's first and last step)"
+		c.Assumptions = []string{"yield granularity is the Go statement (the -race build covers finer grain for conflicts, not for result corruption)", "the generated lexer / GLL parser and the map-ranging build-time functions of the BSR set are not yield-instrumented: BuildExpr is one atomic step per call in the plain build (the -race build still sees every memory access in them)", "GOMAXPROCS=1 inside simulation processes", "expected results come from isolated worlds computed before the tasks start"}
+		c.Components = map[string][]string{"real": append([]string{"Go race detector (race build)"}, realLib...), "simulated": {"goroutine choice between any two statements of exec/, store/, parser/, grammar/grammar.go, grammar/parser/bsr, xsel.go (scheduler L, turn token without happens-before edges)", "user callbacks"}}
+		c.RequiredProbes = []string{"tasks-interleaved", "shared-variable-with-spare-capacity", "shared-variable-in-reverse-order", "forced-switch-at-targeted-site", "race-build-run", "two-or-more-workers-live", "blocked:chan send", "files-with-multi-record-blocks"}
+		c.Phases = []simkit.Phase{
+			{Label: "sched-lib", BinKind: "sched", Bin: env("VERIF_SCHED_BIN", ""), Engine: "sched-lib", Runs: pick(5000, 500000), MaxSeconds: secs(25, 900), DetSample: int(pick(16, 128)), Samples: 2},
+			{Label: "sched-cli", Bin: bin, Engine: "sched-cli", Runs: pick(2500, 300000), MaxSeconds: secs(40, 1200), DetSample: int(pick(4, 32)), Samples: 2},
+			{Label: "sched-lib-race", BinKind: "sched-race", Bin: env("VERIF_SCHED_RACE_BIN", ""), Engine: "sched-lib", Runs: pick(1000, 50000), MaxSeconds: secs(25, 900), Env: raceEnv, Samples: 1},
+		}
 	case "C10":
 		c.Level = "exploration"
 		c.Rule = "one evaluation = one scripted event history (contract-conforming: element start, then namespaces, then attributes, then children, end; surplus end events only where depth is 0) pulled by store.CreateInMemory through the Parser seam and compared with a stack-machine reference model, plus the stack-ceiling child processes (one evaluation each); distinct = distinct event history; non-trivial = history has >= 4 events"
@@ -149,7 +163,7 @@ func replayCmd(args []string) int {
 		}
 		return code
 	}
-	bin := binFor(rf.Engine)
+	bin := binFor(rf)
 	cmd := exec.Command(bin, "exec1", "--file", file)
 	cmd.Env = append(os.Environ(), envFor(rf)...)
 	cmd.Stdout = os.Stdout
@@ -187,11 +201,15 @@ func envFor(rf simkit.ReplayFile) []string {
 	return nil
 }
 
-func binFor(engine string) string {
-	switch engine {
-	case "sched-lib":
+func binFor(rf simkit.ReplayFile) string {
+	kind := ""
+	if m, ok := rf.Extra.(map[string]any); ok {
+		kind, _ = m["bin_kind"].(string)
+	}
+	switch kind {
+	case "sched":
 		return env("VERIF_SCHED_BIN", self())
-	case "sched-lib-race":
+	case "sched-race":
 		return env("VERIF_SCHED_RACE_BIN", self())
 	}
 	return self()
